@@ -118,8 +118,9 @@ double MetaOptimizer::doStep()
 
   int tolTest = 0;
   double tol = getStopCondition()->getTolerance();
-  if (stepCount_ <= n_)
+  if (stepCount_ <= n_ && initialValue_ > 0)
   {
+    // (The intermediate precisions are scaled on the logarithm of the initial value: only defined if it is positive.)
     tol = initialValue_ * pow(10, stepCount_ * precisionStep_);
   }
 
